@@ -166,9 +166,11 @@ def information_weight(data, prior_strength=0.1, approximate_prior=False, target
         column_kl_divergence_func = supervised_column_kl
 
     csc_data = data.tocsc()
-    if not csc_data.has_sorted_indices:
-        # sorted_indices() returns a copy: tocsc() of a CSC matrix is the caller's own object
-        csc_data = csc_data.sorted_indices()
+    if not csc_data.has_canonical_format:
+        # work on a copy: tocsc() of a CSC matrix is the caller's own object.
+        # sum_duplicates() sorts the indices and adds up entries stored for the same (row, column)
+        csc_data = csc_data.copy()
+        csc_data.sum_duplicates()
 
     weights = column_weights(
         csc_data.indptr,
